@@ -45,6 +45,10 @@ func (li Balances) View(limit uint64) (*RegistryBalancesView, error) {
 		tmp[i] = Uint64View(bal)
 	}
 	typ := BasicListType(common.GweiType, limit)
+	if len(li) == 0 {
+		// FromElements (ztyp v0.2.2) builds an invalid tree (nil contents node) for zero elements
+		return AsRegistryBalances(typ.New(), nil)
+	}
 	return AsRegistryBalances(typ.FromElements(tmp...))
 }
 
